@@ -382,3 +382,8 @@ pub fn replay(kind: &str, case: &J, rec: &mut Rec) -> Verdict {
         _ => Verdict::fail("infra:unknown-kind", kind),
     }
 }
+
+/// entry point for the coverage-guided target
+pub fn check_text_pub(c: &FText, rec: &mut Rec) -> Verdict {
+    check_text(c, rec)
+}
